@@ -19,7 +19,7 @@ EXPLANATION = (
     'their AST to z3 terms over (_ BitVec 64) (loops unrolled over N=63 region names with a symbolic injective index map into '
     '1..63 and a symbolic selection) and z3 decides, one query per region and without bound on the subset, that a region is decoded iff selected, '
     'that the asserts hold, that no shift leaves the 64-bit model (so BitVec = Python int here) and that the value fits a signed '
-    'BIGINT; a second obligation uses an arbitrary symbolic sequence of picks (duplicates, any order). The translator is '
+    'BIGINT; a second family (N=16 regions) uses an arbitrary symbolic sequence of 4 (quick) / 6 (thorough) picks (duplicates, any order). The translator is '
     'validated each run on solver-chosen models against the real functions.'
 )
 SRC_BFV = 'batch/batch/batch_format_version.py'
@@ -56,8 +56,8 @@ def _regions(R, n, picks):
         node, text = RG.load(fn)
         R.encode(f'{RG.SRC}:{node.lineno} {fn}', text)
     timeout_ms = 120000 if R.tier == 'quick' else 600000
-    for pk, label in ((None, f'N={n}, any subset'), (picks, f'N={n}, sequence of {picks} picks')):
-        P = RG.Problem(n, pk)
+    for nn, pk, label in ((n, None, f'N={n}, any subset'), (16, picks, f'N=16, sequence of {picks} picks')):
+        P = RG.Problem(nn, pk)
         tw = z3.Solver()
         tw.add(*P.pre)
         tw.add(z3.Or(*P.want))
@@ -66,7 +66,7 @@ def _regions(R, n, picks):
         chunks = [keys[i::8] for i in range(8)]
         results = []
         with cf.ProcessPoolExecutor(max_workers=8, mp_context=mp.get_context('fork')) as ex:
-            for part in ex.map(RG.solve_goals, [(n, pk, c, timeout_ms) for c in chunks if c]):
+            for part in ex.map(RG.solve_goals, [(nn, pk, c, timeout_ms) for c in chunks if c]):
                 results.extend(part)
         for key, r, dt, cex in sorted(results, key=lambda x: keys.index(x[0])):
             name = f'regions {label}: {key}'
@@ -168,7 +168,7 @@ def run(R):
     quick = R.tier == 'quick'
     versions = [1, 4, 5, 7] if quick else [1, 2, 3, 4, 5, 6, 7]
     R.bounds = {'format versions': versions, 'secrets': '0..2', 'regions N': 63, 'index map': 'any injective map into 1..63',
-                'picks (sequence obligation)': 4 if quick else 8, 'storage_gib': '0..2^40-1'}
+                'picks (sequence obligation, N=16 regions)': 4 if quick else 6, 'storage_gib': '0..2^40-1'}
     R.assume('string fields of a spec (namespaces, names, mount paths) are modelled by symbolic integers: the codec only moves them',
              'spec["resources"] is a dict carrying storage_gib and preemptible (create_jobs sets them before db_spec is called)',
              'equality is modulo the readers\' normal forms: secrets absent == None == []; missing mount_in_copy == False; '
@@ -180,7 +180,7 @@ def run(R):
              'and the mapping is injective with values 1..63 (regions.region_id AUTO_INCREMENT, asserted < 64 by the code)',
              'CrossHair 0.0.110 path exploration is exhaustive when it reports "Confirmed over all paths"')
     R.extra['trusted_base'] = ['CrossHair/z3', 'z3 bit-vector theory', 'harness/C15_spec.py oracle', 'harness/C15_regions.py translator']
-    _regions(R, 63, 4 if quick else 8)
+    _regions(R, 63, 4 if quick else 6)
     _spec(R, versions)
 
 
